@@ -25,11 +25,11 @@ Proof. exact RefEncl.gen_extract_enclosing_refines_fuel. Qed.
 Theorem C09_generated_anonymize_value_keeps_the_enclosing_text :
   forall (pc : PyLib.pyval -> PyLib.pyval -> PyLib.res) (orc : oracle), RefValue.passlib_answers_as_the_model pc orc ->
   forall (fuel : nat) (raw : str) (lookup : lookup_t) (reserved : list str) (salt out : str) (lookup' : lookup_t),
-  (length raw < fuel)%nat -> TotalProofs.table_bytes lookup -> RefValue.keys_unique lookup ->
+  (length raw < fuel)%nat -> TotalProofs.table_bytes lookup -> RefBase.keys_unique lookup ->
   (forall c, JunModel.encrypt (TotalProofs.anon0_of lookup) salt = JOk c -> (length c < fuel)%nat) ->
   anonymize_value orc raw lookup reserved salt = Done (out, lookup') ->
-  G_fn_sir2.gen__anonymize_value pc fuel (RefJun.vstr raw) (RefValue.vlook lookup) (RefValue.vres reserved) (RefJun.vstr salt)
-    = PyLib.Normal (PyLib.VTuple [RefJun.vstr out; RefValue.vlook lookup'])
+  G_fn_sir2.gen__anonymize_value pc fuel (RefJun.vstr raw) (RefBase.vlook lookup) (RefBase.vres reserved) (RefJun.vstr salt)
+    = PyLib.Normal (PyLib.VTuple [RefJun.vstr out; RefBase.vlook lookup'])
   /\ (out = raw \/ exists repl, out = (fst (fst (extract_enclosing raw [] [])) ++ repl ++ snd (extract_enclosing raw [] []))%list).
 Proof.
   intros pc orc Hp fuel raw lookup reserved salt out lookup' H1 H2 H3 H4 E. split.
